@@ -162,7 +162,20 @@ func c11Run(fs *Facts) {
 		}
 		return true
 	})
+	// repaired shape: `if keySet == nil { keySet = map[string]struct{}{} }` right after the snapshot
+	normalised := false
+	ast.Inspect(bs, func(x ast.Node) bool {
+		if ifs, ok := x.(*ast.IfStmt); ok && gs.Str(ifs.Cond) == "keySet == nil" {
+			body := gs.Str(ifs.Body)
+			if strings.Contains(body, "keySet = map[string]struct{}{}") || strings.Contains(body, "keySet = make(map[string]struct{}") {
+				normalised = true
+			}
+		}
+		return true
+	})
 	switch {
+	case normalised:
+		fs.Tri("emptyCandMeansAll", No, c11GwShift+":"+itoa(nilLine))
 	case nilGuard > 0 && returnsNil:
 		fs.Tri("emptyCandMeansAll", Yes, c11GwShift+":"+itoa(nilLine))
 	case nilGuard == 0:
